@@ -180,6 +180,7 @@ def coq_eval(name, header, typ, chk, items, shard=400, timeout=600):
     """Evaluate `chk` on every item inside Coq (vm_compute).  items: list of Coq terms of type typ.
     Returns (bad_indices, errors).  Shards run in parallel."""
     os.makedirs(CASES, exist_ok=True)
+    name = "%s_p%d" % (name, os.getpid())     # concurrent runs of the same check must not share case files
     jobs = []
     for k in range(0, len(items), shard):
         jobs.append((name, k // shard, header, typ, chk, items[k:k + shard], timeout))
